@@ -7,7 +7,7 @@ CONSTANTS NInf, NInit, NL, MaxDepth, EmitMode
 Exp == <<1>> \* @EXP@ (rewritten by the harness per pack shape)
 INSTANCE ClassQueue
 Labels == 0..(NL - 1)
-Fuel == 60
+Fuel == 800
 VARIABLES q, g, hist, last, bad
 vars == <<q, g, hist, last, bad>>
 Ev(op, a, ret, lv) == [op |-> op, a |-> a, ret |-> ret, lv |-> lv]
